@@ -421,6 +421,12 @@ def run_inputs(ctx, inputs):
 
 
 def run(ctx):
+    ctx.assumptions = [
+        "C18: urllib.parse.urlsplit is modelled on the ASCII URL alphabet only (letters digits -._~:/?#[]@!$&'()*+,;=%); outside it the driver answers `unmodelled` and the case is judged by the oracle alone",
+        "C18: urllib.parse._check_bracketed_host (ipaddress) is a parameter `v6ok` of model, Spec and theorems; the driver's instance Model.Url.bracketOk is compared with CPython on generated literals, not proved",
+        "C18: Spec.Url.classify leaves authorities outside the RFC 3986 grammar, the explicit port 0 and ports > 65535 `unconstrained` (target or ValueError both accepted)",
+        "C18: getaddrinfo / socket / ssl wrap are simulated (harness/simnet_h1.py); exceptions out of socket(), settimeout(), setsockopt() are not modelled",
+    ]
     ctx.rule = ("parse_url: scheme x host form (names, IPv4, bracketed IPv6, sub-delims) x port {absent, '', 0, 1, 80, 443, 8080, "
                 "65535, 65536, x, 0080, huge} x path x query (exhaustive), x user-info x fragment (sampled; exhaustive in thorough), "
                 "malformed variants (no colon, foreign scheme, missing slashes, missing host, broken authority), every string "
